@@ -159,6 +159,144 @@ fn construct(r: &RTx, variant: u64) -> Result<Vec<u8>, String> {
     tx.to_bytes().map_err(|e| e.to_string())
 }
 
+#[derive(Clone, Copy, Debug, PartialEq)]
+enum HOp {
+    Add(usize),
+    Prepend(usize),
+    Insert(usize, usize),
+    Set(usize, usize),
+    AddMany(usize, usize),
+}
+
+const HIST_MAX_LEN: usize = 4;
+
+/// Every construction call enabled on lists of length `len` (operands 0 and 1).
+fn history_ops(len: usize) -> Vec<HOp> {
+    let mut v = vec![];
+    for k in 0..2 {
+        if len < HIST_MAX_LEN {
+            v.push(HOp::Add(k));
+            v.push(HOp::Prepend(k));
+            for i in 0..=len {
+                v.push(HOp::Insert(i, k));
+            }
+        }
+        for i in 0..len {
+            v.push(HOp::Set(i, k));
+        }
+    }
+    if len + 2 <= HIST_MAX_LEN {
+        for a in 0..2 {
+            for b in 0..2 {
+                v.push(HOp::AddMany(a, b));
+            }
+        }
+    }
+    v
+}
+
+fn hist_in(k: usize) -> RIn {
+    let mut t = [0u8; 32];
+    for (i, b) in t.iter_mut().enumerate() {
+        *b = (i as u8).wrapping_mul(3).wrapping_add(1 + 0x40 * k as u8);
+    }
+    RIn { txid_wire: t, vout: 0x0100 + k as u32, script: vec![0x51 + k as u8], sequence: 0xfffffff0 + k as u32 }
+}
+
+fn hist_out(k: usize) -> ROut {
+    ROut { value: 0x0102030405060700 + k as u64, script: vec![0x76, 0xa9, 0x01, k as u8, 0x88, 0xac] }
+}
+
+fn history_dfs(tx: &mut Transaction, model: &mut Vec<usize>, trail: &mut Vec<HOp>, op: HOp, depth: usize, acc: &mut Acc, case: &Case) {
+    let lib_in = |k: usize| {
+        let r = hist_in(k);
+        TxIn::new(&r.txid_display(), r.vout, &Script::from_bytes(&r.script).unwrap(), Some(r.sequence))
+    };
+    let lib_out = |k: usize| {
+        let r = hist_out(k);
+        TxOut::new(r.value, &Script::from_bytes(&r.script).unwrap())
+    };
+    let (saved_tx, saved_model) = (tx.clone(), model.clone());
+    trail.push(op);
+    acc.evaluations += 1;
+    acc.transitions += 3;
+    acc.traces += 1;
+    let applied = guard(|| {
+        let mut t = tx.clone();
+        match op {
+            HOp::Add(k) => {
+                t.add_input(&lib_in(k));
+                t.add_output(&lib_out(k));
+            }
+            HOp::Prepend(k) => {
+                t.prepend_input(&lib_in(k));
+                t.prepend_output(&lib_out(k));
+            }
+            HOp::Insert(i, k) => {
+                t.insert_input(i, &lib_in(k));
+                t.insert_output(i, &lib_out(k));
+            }
+            HOp::Set(i, k) => {
+                t.set_input(i, &lib_in(k));
+                t.set_output(i, &lib_out(k));
+            }
+            HOp::AddMany(a, b) => {
+                t.add_inputs(vec![lib_in(a), lib_in(b)]);
+                t.add_outputs(vec![lib_out(a), lib_out(b)]);
+            }
+        }
+        let bytes = t.to_bytes().map_err(|e| e.to_string());
+        let firsts: Vec<Option<(u32, u64)>> = (0..t.get_ninputs().max(t.get_noutputs())).map(|i| t.get_input(i).map(|x| x.get_vout()).zip(t.get_output(i).map(|o| o.get_satoshis()))).collect();
+        (t, bytes, firsts)
+    });
+    match op {
+        HOp::Add(k) => model.push(k),
+        HOp::Prepend(k) => model.insert(0, k),
+        HOp::Insert(i, k) => model.insert(i, k),
+        HOp::Set(i, k) => model[i] = k,
+        HOp::AddMany(a, b) => {
+            model.push(a);
+            model.push(b);
+        }
+    }
+    let want = RTx { version: 2, locktime: 0x01020304, inputs: model.iter().map(|k| hist_in(*k)).collect(), outputs: model.iter().map(|k| hist_out(*k)).collect() };
+    let kind = match op {
+        HOp::Add(_) => "add",
+        HOp::Prepend(_) => "prepend",
+        HOp::Insert(..) => "insert",
+        HOp::Set(..) => "set",
+        HOp::AddMany(..) => "add_many",
+    };
+    let input = || json!({"calls_on_inputs_and_outputs_alike": format!("{:?}", trail), "model_list_after": model.clone()});
+    let mut ok = false;
+    match applied {
+        Err(p) => acc.violate(format!("C01/assembly/after={}/kind=panic@{}", kind, panic_site(&p)), case.idx, case.json(input()), p),
+        Ok((t, bytes, firsts)) => {
+            acc.nontrivial_structural += 1;
+            acc.states_structural += 1;
+            acc.outcome(&[0x68, model.len() as u8]);
+            let wb = want.encode();
+            let acc_ok = firsts.len() == model.len() && firsts.iter().zip(model.iter()).all(|(f, k)| *f == Some((hist_in(*k).vout, hist_out(*k).value)));
+            if bytes.as_ref().ok() != Some(&wb) {
+                acc.violate(format!("C01/assembly/after={}/kind=serialisation-differs-from-list-model", kind), case.idx, case.json(input()), format!("library={:?} reference={}", bytes.map(|b| hx(&b)), hx(&wb)));
+            } else if !acc_ok {
+                acc.violate(format!("C01/assembly/after={}/kind=accessors-differ-from-list-model", kind), case.idx, case.json(input()), format!("(vout, value) per position: {:?}", firsts));
+            } else {
+                ok = true;
+                *tx = t;
+            }
+        }
+    }
+    if ok && trail.len() < depth {
+        for next in history_ops(model.len()) {
+            history_dfs(tx, model, trail, next, depth, acc, case);
+        }
+    }
+    trail.pop();
+    *tx = saved_tx;
+    *model = saved_model;
+}
+
 /// The C01 oracle for one candidate byte string.
 pub fn eval_tx_bytes(b: &[u8], env: &c02::Env, acc: &mut Acc, case: &Case, desc: &dyn Fn() -> Value) {
     let child = crate::iso::in_child();
@@ -571,6 +709,22 @@ pub fn spaces(tier: Tier) -> Vec<Space> {
             let b = tx.encode();
             let d = || json!({"coinbase_script": hex::encode(&blobs[c[0] as usize]), "layout": c[1]});
             eval_tx_bytes(&b, &e, acc, case, &d);
+        }));
+    }
+    // S4b: assembly histories against a list model: every sequence of up to D construction calls over {add, prepend,
+    // insert(i) for every 0 <= i <= len, set(i) for every i < len, add_many(two)} x two distinct operands, applied to the
+    // input list and (the same shape) to the output list of one Transaction object; after EVERY call the serialisation must
+    // equal the reference encoding of the model lists and the element accessors must agree with them
+    {
+        let depth: usize = if tier.is_thorough() { 6 } else { 5 };
+        // first-level prefixes are the cases; each case explores all its extensions depth-first
+        let firsts = history_ops(0);
+        let nf = firsts.len() as u64;
+        v.push(Space::new("assembly-histories", nf, move |case, acc| {
+            let mut tx = Transaction::new(2, 0x01020304);
+            let mut model: Vec<usize> = vec![];
+            let mut trail: Vec<HOp> = vec![];
+            history_dfs(&mut tx, &mut model, &mut trail, firsts[case.idx as usize], depth, acc, case);
         }));
     }
     // S5: compact-size helper encoders
